@@ -192,6 +192,12 @@ func (n *Node) Commit() {
 	n.cur = nil
 }
 
+// Snapshot / Restore use diffdb's own snapshots on the working store (long-lived views).
+func (n *Node) Snapshot() int { return n.Store().Snapshot() }
+
+// Restore returns the working store to a snapshot.
+func (n *Node) Restore(id int) error { return n.Store().RestoreSnapshot(id) }
+
 // Discard drops the working store of a per-block view without committing (after reads).
 func (n *Node) Discard() {
 	if !n.LongLived {
@@ -356,37 +362,52 @@ func Compare(api *liskbft.API, store *diffdb.Database, m *lip58.Model, o Compare
 	if !has {
 		tip, lo = m.Prevoted, m.Prevoted
 	}
-	from := lo
+	// Heights probed: lookups are piecewise constant between stored keys, so it is enough to
+	// probe around every key stored on either side (parameters and generator keys), around
+	// both ends of the window, and height 0; windows of up to 16 blocks are probed fully.
+	probe := map[uint32]struct{}{}
+	addH := func(h uint32) {
+		if o.BelowWindow || h >= lo {
+			probe[h] = struct{}{}
+		}
+	}
+	around := func(h uint32) {
+		if h > 0 {
+			addH(h - 1)
+		}
+		addH(h)
+		addH(h + 1)
+	}
+	around(lo)
+	around(tip)
+	addH(tip + 2)
 	if o.BelowWindow {
-		// start two heights below the lowest key stored on either side (not at 0: the
-		// genesis height may be huge); height 0 itself is always probed as well
-		if ks := m.ParamHeights(); len(ks) > 0 && ks[0] < from {
-			from = ks[0]
-		}
-		if ks := m.GeneratorKeyHeights(); len(ks) > 0 && ks[0] < from {
-			from = ks[0]
-		}
-		if ips, err := liskbft.VerifDumpParams(store); err == nil && len(ips) > 0 && ips[0].Height < from {
-			from = ips[0].Height
-		}
-		for _, g := range liskbft.VerifDumpGeneratorKeyHeights(store) {
-			if g < from {
-				from = g
-			}
-		}
-		if from >= 2 {
-			from -= 2
-		} else {
-			from = 0
+		addH(0)
+	}
+	if tip-lo < 16 {
+		for h := lo; h <= tip; h++ {
+			addH(h)
 		}
 	}
-	heights := []uint32{}
-	if from > 0 && o.BelowWindow {
-		heights = append(heights, 0)
+	for _, k := range m.ParamHeights() {
+		around(k)
 	}
-	for h := from; h <= tip+2 && h >= from; h++ {
+	for _, k := range m.GeneratorKeyHeights() {
+		around(k)
+	}
+	if ips, err := liskbft.VerifDumpParams(store); err == nil {
+		for _, p := range ips {
+			around(p.Height)
+		}
+	}
+	for _, g := range liskbft.VerifDumpGeneratorKeyHeights(store) {
+		around(g)
+	}
+	heights := make([]uint32, 0, len(probe))
+	for h := range probe {
 		heights = append(heights, h)
 	}
+	sort.Slice(heights, func(i, j int) bool { return heights[i] < heights[j] })
 	for _, h := range heights {
 		ip, ierr := api.GetBFTParameters(store, h)
 		rp, rerr := m.ParamsAt(h)
